@@ -1542,3 +1542,46 @@ Proof. intros H. unfold rp_setattr. apply mem_str_In in H. now rewrite H. Qed.
 
 Theorem not_readonly_accepted ro k : ~ In k ro -> rp_setattr ro k = None.
 Proof. intros H. unfold rp_setattr. destruct (mem_str k ro) eqn:E; auto. apply mem_str_In in E. tauto. Qed.
+
+Lemma rp_register_gen calls ro rw :
+  let r := fold_left (fun (reg : list string * list string) (c : list string * bool) =>
+               if snd c then (fst reg ++ fst c, snd reg) else (fst reg, snd reg ++ fst c)) calls (ro, rw) in
+  (forall k, In k (fst r) <-> In k ro \/ exists names, In (names, true) calls /\ In k names) /\
+  (forall k, In k (snd r) <-> In k rw \/ exists names, In (names, false) calls /\ In k names).
+Proof.
+  revert ro rw. induction calls as [|[names b] calls IH]; intros ro rw; simpl.
+  - split; intros k; split; auto; intros [H|[n [[] _]]]; auto.
+  - destruct b; simpl.
+    + destruct (IH (ro ++ names) rw) as [A B]. split; intros k.
+      * rewrite A, in_app_iff. split.
+        -- intros [[H|H]|[n [H1 H2]]]; [now left | right; exists names; auto | right; exists n; auto].
+        -- intros [H|[n [[H1|H1] H2]]]; [auto | inversion H1; subst; auto | right; eauto].
+      * rewrite B. split.
+        -- intros [H|[n [H1 H2]]]; [auto | right; exists n; auto].
+        -- intros [H|[n [[H1|H1] H2]]]; [auto | discriminate | right; eauto].
+    + destruct (IH ro (rw ++ names)) as [A B]. split; intros k.
+      * rewrite A. split.
+        -- intros [H|[n [H1 H2]]]; [auto | right; exists n; auto].
+        -- intros [H|[n [[H1|H1] H2]]]; [auto | discriminate | right; eauto].
+      * rewrite B, in_app_iff. split.
+        -- intros [[H|H]|[n [H1 H2]]]; [now left | right; exists names; auto | right; exists n; auto].
+        -- intros [H|[n [[H1|H1] H2]]]; [auto | inversion H1; subst; auto | right; eauto].
+Qed.
+
+(* a name registered read-only by ANY call of the class hierarchy stays protected, and every
+   registered name is listed in params *)
+Theorem readonly_union_over_calls calls names k :
+  In (names, true) calls -> In k names ->
+  rp_setattr (fst (rp_register calls)) k = Some ReadOnlyError /\ In k (rp_params calls).
+Proof.
+  intros H1 H2. destruct (rp_register_gen calls [] []) as [A _].
+  assert (X : In k (fst (rp_register calls))) by (apply A; right; eauto).
+  split; [now apply readonly_rejected | unfold rp_params; apply in_app_iff; now left].
+Qed.
+
+Theorem registered_listed_in_params calls names b k :
+  In (names, b) calls -> In k names -> In k (rp_params calls).
+Proof.
+  intros H1 H2. destruct (rp_register_gen calls [] []) as [A B]. unfold rp_params. apply in_app_iff.
+  destruct b; [left; apply A | right; apply B]; right; eauto.
+Qed.
